@@ -548,7 +548,35 @@ impl Callbacks for Cb {
                             }
                         }
                     }
-                    consts.push(obj(vec![("def", esc(&cx.path(id.to_def_id()))), ("ty", cx.ty(t, 2)), ("int", opt(val)), ("str", opt(sval))]));
+                    // constant arrays of integers / field-less enums (lookup tables): the elements as integers
+                    let mut aval: Option<String> = None;
+                    if let TyKind::Array(elem, len) = t.kind() {
+                        let typing_env = ty::TypingEnv::fully_monomorphized();
+                        if let (Ok(layout), Some(n)) = (tcx.layout_of(typing_env.as_query_input(*elem)), len.try_to_target_usize(tcx)) {
+                            let esz = layout.size.bytes() as usize;
+                            if esz > 0 && esz <= 8 && n <= 4096 && (elem.is_integral() || elem.is_enum()) {
+                                if let Ok(rustc_middle::mir::ConstValue::Indirect { alloc_id, offset }) = tcx.const_eval_poly(id.to_def_id()) {
+                                    if let Some(rustc_middle::mir::interpret::GlobalAlloc::Memory(mem)) = tcx.try_get_global_alloc(alloc_id) {
+                                        let start = offset.bytes() as usize;
+                                        let total = esz * (n as usize);
+                                        if start + total <= mem.inner().len() {
+                                            let bytes = mem.inner().inspect_with_uninit_and_ptr_outside_interpreter(start..start + total);
+                                            let mut vals = vec![];
+                                            for k in 0..(n as usize) {
+                                                let mut v: u64 = 0;
+                                                for b in 0..esz {
+                                                    v |= (bytes[k * esz + b] as u64) << (8 * b);
+                                                }
+                                                vals.push(v.to_string());
+                                            }
+                                            aval = Some(arr(vals));
+                                        }
+                                    }
+                                }
+                            }
+                        }
+                    }
+                    consts.push(obj(vec![("def", esc(&cx.path(id.to_def_id()))), ("ty", cx.ty(t, 2)), ("int", opt(val)), ("str", opt(sval)), ("array", aval.unwrap_or_else(|| "null".to_string()))]));
                 }
                 DefKind::Static { .. } => {
                     let t = tcx.type_of(id.to_def_id()).instantiate_identity().skip_norm_wip();
